@@ -277,6 +277,9 @@ func c08Check(c c08Case) string {
 		if c.Target == "short" {
 			return strings.TrimPrefix(filepath.ToSlash(p), "t/")
 		}
+		if c.Target == "tilde" {
+			return strings.TrimPrefix(filepath.ToSlash(p), "~t/")
+		}
 		if i := strings.Index(p, "/"+ops.JailTarget+"/"); i >= 0 {
 			return p[i+len("/"+ops.JailTarget+"/"):]
 		}
@@ -405,7 +408,7 @@ func c08Gen() *rapid.Generator[c08Case] {
 		if hasDupRoots(f) {
 			uniqRoots(f)
 		}
-		c := c08Case{Forest: f, Entry: entry, Strict: rapid.Bool().Draw(t, "strict"), Target: rapid.SampledFrom([]string{"", "rel", "slash", "short"}).Draw(t, "target")}
+		c := c08Case{Forest: f, Entry: entry, Strict: rapid.Bool().Draw(t, "strict"), Target: rapid.SampledFrom([]string{"", "rel", "slash", "short", "tilde"}).Draw(t, "target")}
 		c.Massive = rapid.IntRange(0, 4).Draw(t, "massive") == 0
 		if rapid.IntRange(0, 3).Draw(t, "hist") == 0 {
 			c.History = "mkdir"
@@ -414,7 +417,7 @@ func c08Gen() *rapid.Generator[c08Case] {
 		}
 		if rapid.IntRange(0, 9).Draw(t, "noTarget") == 0 {
 			c.NoTarget = true
-			if c.Target == "short" {
+			if linkTarget(c.Target) {
 				c.Target = ""
 			}
 			return c
@@ -423,7 +426,7 @@ func c08Gen() *rapid.Generator[c08Case] {
 		if rapid.IntRange(0, 11).Draw(t, "refusal") == 0 {
 			c.Refusal = rapid.SampledFrom([]string{"longroot", "targetIsFile"}).Draw(t, "refusalKind")
 			c.RootLink = false
-			if c.Target == "short" {
+			if linkTarget(c.Target) {
 				c.Target = ""
 			}
 		}
